@@ -267,6 +267,41 @@ def agents_tv_stage(ctx):
     ctx.drv_par = None
 
 
+def crashcluster_tv(nq, nt):
+    def stage(ctx):
+        """3 child-process nodes, leader SIGKILLed mid-insertion, re-election, restart, catch-up -> Trace_Cluster.tla"""
+        ctx.drv_par = 3
+        trace_files_stage(ctx, "crashcluster", "crashcluster", ctx.pick(nq, nt), module="Trace_Cluster", cfg=CLUSTER_CFG, spec="CSpec")
+        ctx.drv_par = None
+    return stage
+
+
+mc_restore = mc_stage("Restore", """SPECIFICATION Spec
+CONSTANTS
+  MaxOldIdx = @MaxOldIdx@
+  MaxOldVer = @MaxOldVer@
+  MaxNew = @MaxNew@
+  ResetIndexOnBootstrap = TRUE
+INVARIANT NothingDiscarded
+PROPERTY VersionKept
+CHECK_DEADLOCK FALSE
+""", quick={"MaxOldIdx": 6, "MaxOldVer": 4, "MaxNew": 4}, thorough={"MaxOldIdx": 12, "MaxOldVer": 8, "MaxNew": 8})
+
+
+mc_client = mc_stage("Client", """SPECIFICATION Spec
+CONSTANTS
+  Urls = {@Urls@}
+  Health = TRUE
+  Discovery = TRUE
+  Prefs = {0, 1, 2, 3, 4}
+  DiscoverMarksDead = TRUE
+  ReuseKeepsNodeType = FALSE
+  Bound = @Bound@
+INVARIANT BoundedCall
+CHECK_DEADLOCK FALSE
+""", quick={"Urls": '"a", "b"', "Bound": 12}, thorough={"Urls": '"a", "b", "c"', "Bound": 16}, timeout=6000)
+
+
 def adversary_tv_stage(ctx):
     """Altered / recombined / forged answers -> real JSON decoder + real verifier -> Trace_Balloon.tla"""
     trace_files_stage(ctx, "adversary", "adv", ctx.pick(8, 16))
@@ -435,9 +470,11 @@ PLANS = {
                 "up to 2^63-1, all-ones digests, snapshots / signed batches (JSON), gossip messages (msgpack), answers for versions beyond current"),
     "C14": plan("model_checking", [mc_store, store_tv_stage], RULE_STORE),
     "C15": plan("model_checking", [mc_logstore, logstore_tv_stage], RULE_LOGSTORE),
-    "C05": plan("model_checking", [mc_cluster, cluster_tv("replicas", 6, 12), thorough_only(balloon_tv_stage)], RULE_CLUSTER),
-    "C06": plan("model_checking", [mc_cluster, cluster_tv("replicas", 6, 16)], RULE_CLUSTER),
-    "C07": plan("fault_enumeration", [mc_cluster, crash_tv("kill", 8, 16)], RULE_CLUSTER + "; fault enumeration: a child process hosting a real "
+    "C05": plan("model_checking", [mc_cluster, cluster_tv("replicas", 6, 12), crashcluster_tv(2, 8), thorough_only(balloon_tv_stage)],
+                RULE_CLUSTER + "; plus 3-process clusters whose leader is SIGKILLed before/after the store write of an insertion"),
+    "C06": plan("model_checking", [mc_cluster, cluster_tv("replicas", 6, 16), crashcluster_tv(2, 8)],
+                RULE_CLUSTER + "; plus 3-process clusters whose leader is SIGKILLed mid-insertion, re-election, restart and catch-up by log replay"),
+    "C07": plan("fault_enumeration", [mc_cluster, crash_tv("kill", 8, 16), crashcluster_tv(3, 12)], RULE_CLUSTER + "; fault enumeration: a child process hosting a real "
                 "RaftNode SIGKILLs itself immediately before / after the i-th store write (every i of the workload, both sides, with and "
                 "without a prior raft snapshot), is restarted on the same directories, replays its raft log, finishes the workload and "
                 "answers membership queries for every event; non-trivial = each (workload, crash write, side) experiment"),
@@ -447,7 +484,7 @@ PLANS = {
     "C10": plan("model_checking", [mc_cluster, cluster_tv("window", 6, 16), cluster_tv("replicas", 2, 6)], RULE_CLUSTER + "; window scenario: the gated store "
                 "holds db.Mutate of an insertion before the real write while other goroutines issue every kind of query for old and in-flight "
                 "events (and backups); replies are verified against the snapshots acknowledged afterwards"),
-    "C16": plan("model_checking", [mc_cluster, cluster_tv("backup", 6, 16), cluster_tv("window", 2, 6)], RULE_CLUSTER + "; backup scenario: random add / backup / "
+    "C16": plan("model_checking", [mc_cluster, mc_restore, cluster_tv("backup", 6, 16), cluster_tv("window", 2, 6)], RULE_CLUSTER + "; backup scenario: random add / backup / "
                 "delete-backup sequences, then every existing backup is restored into a fresh directory and opened as a new bootstrapped node"),
     "C11": plan("model_checking", [mc_cluster, api_tv_stage], "MC: Cluster.tla (every replicated command is applied by every replica; NoVersionPanic). "
                 "TV: request matrix = 5 methods x 9 API paths + 8 management URLs x generic body shapes (absent, empty, garbage, truncated, {}, null, [], "
@@ -474,7 +511,7 @@ PLANS = {
                 "single alteration of a gossiped snapshot (each digest, the version up/down), of the stored snapshot, of the log's answer (history "
                 "entry, hyper entry, other event, absence claim, refusal), honest batches of 1-4 snapshots, empty / null-entry batches, and publisher "
                 "redelivery patterns with overlapping batches; distinct = (role, alteration, batch range)"),
-    "C20": plan("model_checking", [mc_clienttopo, clienttopo_tv_stage, clientcalls_tv_stage],
+    "C20": plan("model_checking", [mc_clienttopo, mc_client, clienttopo_tv_stage, clientcalls_tv_stage],
                 "MC: ClientTopology.tla over urls {a,b,c}: every update (any primary incl. none, any list of <= 3 secondaries), every dead/alive mark, every "
                 "selection with each of the 5 read preferences, revive on/off, all operation sequences up to MaxOps (Safe + Fair), exhaustive. TV 1: seeded "
                 "operation sequences on the REAL topology object (verif hook), one real step per specification transition with full state projection before "
